@@ -167,10 +167,14 @@ func c08Case(c *core.Ctx) *core.Result {
 				cg = core.Catch(func() { retHandle = d.AddHeadingParagraph(t, r.Range(1, 9)) })
 			case 5:
 				op = "AddHeadingParagraphWithBookmark"
-				cg = core.Catch(func() { retHandle = d.AddHeadingParagraphWithBookmark(t, r.Range(1, 9), []string{"", "bm" + fmt.Sprint(serial)}[r.Intn(2)]) })
+				cg = core.Catch(func() {
+					retHandle = d.AddHeadingParagraphWithBookmark(t, r.Range(1, 9), []string{"", "bm" + fmt.Sprint(serial)}[r.Intn(2)])
+				})
 			case 6:
 				op = "AddHeadingWithBookmark"
-				cg = core.Catch(func() { retHandle = d.AddHeadingWithBookmark(t, r.Range(1, 9), []string{"", "hb" + fmt.Sprint(serial)}[r.Intn(2)]) })
+				cg = core.Catch(func() {
+					retHandle = d.AddHeadingWithBookmark(t, r.Range(1, 9), []string{"", "hb" + fmt.Sprint(serial)}[r.Intn(2)])
+				})
 			case 7:
 				op = "AddTable"
 				mustContain = ""
@@ -197,7 +201,9 @@ func c08Case(c *core.Ctx) *core.Result {
 				})
 			case 10:
 				op = "AddListItem"
-				cg = core.Catch(func() { retHandle = d.AddListItem(t, &document.ListConfig{Type: document.ListTypeBullet, BulletSymbol: document.BulletTypeDot}) })
+				cg = core.Catch(func() {
+					retHandle = d.AddListItem(t, &document.ListConfig{Type: document.ListTypeBullet, BulletSymbol: document.BulletTypeDot})
+				})
 			case 11:
 				op = "AddFootnote"
 				cg = core.Catch(func() {
